@@ -218,8 +218,12 @@ static Final observe(Engine& E, Rng& r, bool final_obs, bool need8 = false) {
   double comp[3] = {-1, -1, -1};
   for (int t = 2; t >= 0; --t) {
     if (only >= 0 && t != only && !(need8 && t == 2)) continue;
-    hll_sketch res = E.u->get_result(tgt(t));
     const std::string tctx = ctx + " get_result(" + type_name(t) + ")";
+    std::unique_ptr<hll_sketch> resp;
+    try { resp.reset(new hll_sketch(E.u->get_result(tgt(t)))); }
+    catch (const std::exception& e) { checked(); fail(std::string("union|get_result|") + type_name(t) + "|conversion-threw", tctx + " what=" + e.what()); continue; }
+    hll_sketch& res = *resp;
+    if (t == 0) { size_t ge15 = 0; for (uint32_t c : E.offered) ge15 += cp_value(c) >= 15; if (ge15 > 48) count("get_result_hll4_with_more_than_48_offered_values_ge15"); }
     VF_CHECK(res.get_target_type() == tgt(t), "union|get_result|target-type", tctx);
     VF_CHECK(res.get_lg_config_k() == ulgk, "union|get_result|lg_k-differs-from-union", tctx + " result=" + std::to_string(res.get_lg_config_k()) + " union=" + std::to_string(ulgk));
     Decoded d = read_native(res);
@@ -414,6 +418,13 @@ void run_case(uint64_t idx, Rng& r) {
       else if (i == level_at) {
         op.lg_k = level_lg_k; op.full = r.chance(0.1); op.type = r.chance(0.7) ? 0 : static_cast<int>(1 + r.below(2));
         level_keys = level_stream(r, op.lg_k, static_cast<unsigned>(1 + r.below(3)), static_cast<unsigned>(r.chance(0.5) ? 0 : r.below(3)));
+        if (r.chance(0.3)) {
+          // highfill operand: HLL_6/HLL_8 whose slots mostly hold values >= 15 (every one an exception once converted to HLL_4)
+          op.type = static_cast<int>(1 + r.below(2)); op.full = r.coin();
+          level_keys = high_value_keys();
+          r.shuffle(level_keys);
+          count("highfill_operands_built");
+        }
         cnt = level_keys.size(); dense = false;
         count("level_operands_built");
       }
